@@ -20,8 +20,8 @@ from .c02 import MASKS
 from .c03 import EXC, EXTRACTABLE
 
 ID = "C07"
-QUICK_RUNS = 6000
-THOROUGH_RUNS = 400000
+QUICK_RUNS = 20000
+THOROUGH_RUNS = 800000
 LEVEL = "exploration"
 RULE = ("one run = one generated program with a drawn fault mix (bad values p in {0,.2,.6}, serializer failure "
         "p in {0,.1,.5}, omitted declared fields, 0-3 raising extractors, 0-3 destinations with failure masks, "
